@@ -185,6 +185,18 @@ INT_NUMS = [n for n in NUMS if n['t'] == 'int' or
 QUANTA = ['1/8', '1/100', '1/2', '1/1000', '1']
 
 
+def class_name(model: RefDir, unique, r):
+    """The Python class name of a new type.  Class names need not be unique
+    (two modules may both define a `Level`); the model and the executor
+    refer to types by the unique name, the class gets this one."""
+    user = [t for t in model.order if not model.types[t]['money']
+            and not model.types[t]['catalogue']]
+    if user and r % 8 == 0:
+        return model.types[user[r // 8 % len(user)]].get('clsname') or \
+            user[r // 8 % len(user)]
+    return unique
+
+
 def fresh_symbol(model: RefDir, prefix, n, r):
     """A fresh, legal unit symbol.  Symbols are arbitrary non-empty strings:
     blanks ('ft lb' style), non-ASCII letters, digits first, a first word
@@ -219,6 +231,7 @@ def resolve(model: RefDir, op):
         ref = bool(r[0] % 4)            # 3 of 4 have a reference unit
         q = QUANTA[r[1] % len(QUANTA)] if ref and r[2] % 5 == 0 else None
         return {'a': 'base_type', 'name': f'T{n}',
+                'clsname': class_name(model, f'T{n}', r[3]),
                 'ref_sym': fresh_symbol(model, 'r', n, deco) if ref else None,
                 'quantum': q,
                 'expect': 'accept'}
@@ -263,7 +276,9 @@ def resolve(model: RefDir, op):
             expect = 'follow'       # generated symbol may collide
         else:
             expect = 'accept'
-        return {'a': 'derived_type', 'name': f'D{n}', 'items': items,
+        return {'a': 'derived_type', 'name': f'D{n}',
+                'clsname': class_name(model, f'D{n}', r[7]),
+                'items': items,
                 'style': r[11] % 3, 'ref_sym': ref_sym, 'auto_ref': all_ref
                 and ref_sym is None, 'quantum': quantum, 'expect': expect,
                 'dup_dim': expect == 'reject',
@@ -567,12 +582,14 @@ def apply(model: RefDir, act, info=None):
     if a == 'base_type':
         q = Fraction(act['quantum']) if act['quantum'] else None
         model.add_type(act['name'], True, act['ref_sym'], q, None)
+        model.types[act['name']]['clsname'] = act.get('clsname')
     elif a == 'derived_type':
         q = Fraction(act['quantum']) if act['quantum'] else None
         ref = act['ref_sym'] if act['ref_sym'] is not None \
             else info.get('ref_sym')
         model.add_type(act['name'], False, ref, q,
                        [tuple(i) for i in act['items']])
+        model.types[act['name']]['clsname'] = act.get('clsname')
     elif a == 'scaled_unit':
         p = model.units[act['parent']]
         f = p['factor'] * num_value(act['k'])
@@ -695,7 +712,8 @@ def perform(env: Env, act):
                 kw['ref_unit_name'] = 'ref ' + act['name']
             if act['quantum'] is not None:
                 kw['quantum'] = Fraction(act['quantum'])
-            cls = QuantityMeta(act['name'], (Quantity,), {}, **kw)
+            cls = QuantityMeta(act.get('clsname') or act['name'],
+                               (Quantity,), {}, **kw)
             env.types[act['name']] = cls
             if cls.ref_unit is not None:
                 env.units[cls.ref_unit.symbol] = cls.ref_unit
@@ -707,7 +725,8 @@ def perform(env: Env, act):
                 kw['ref_unit_symbol'] = act['ref_sym']
             if act['quantum'] is not None:
                 kw['quantum'] = Fraction(act['quantum'])
-            cls = QuantityMeta(act['name'], (Quantity,), {}, **kw)
+            cls = QuantityMeta(act.get('clsname') or act['name'],
+                               (Quantity,), {}, **kw)
             env.types[act['name']] = cls
             info = {}
             if cls.ref_unit is not None:
